@@ -70,7 +70,8 @@ def neutral_edit(rng, lib, g):
                     del_value(nd, a["name"])
                     return g, {"kind": kind, "node": n, "arg": a["name"], "how": "removed explicit default"}
                 if a["name"] not in vals:
-                    set_value(nd, a["name"], copy.deepcopy(a["default"]))
+                    # a configuration-valued default is given as another object with the same content
+                    set_value(nd, a["name"], cfggen.materialize(g["nodes"], copy.deepcopy(a["default"])))
                     return g, {"kind": kind, "node": n, "arg": a["name"], "how": "set to default explicitly"}
         if kind == "optional_none":
             c = [a for a in args if a["optional"] and "default" not in a and a["decl"] == "param"]
@@ -341,7 +342,7 @@ def signature_edit(rng, lib, g, node=None, kinds=None):
                     e = edit_value(rng, lib, a["ty"], old, g, n)
                     if e is None or strip_meta(g, e[0]) == strip_meta(g, old):
                         continue
-                    set_value(nd, a["name"], e[0])
+                    set_value(nd, a["name"], cfggen.materialize(g["nodes"], e[0]))
                     return g, {"node": n, "arg": a["name"], "kind": e[1], "unamb": ty_unamb(a["ty"])}
             if o == "sibling":
                 # move a value to a sibling parameter of the same type
